@@ -806,16 +806,23 @@ def _sint(ex, name):
     return SInt(v.z) if ex.symbolic else int(v)
 
 
-def _parent_elements(deg):
+def _parent_elements(deg, bubble=False):
+    """the real parent elements: plain Lagrange, or bubble-enriched (interior bubble nodes are numbered after the boundary nodes)"""
     from optimism import Interpolants
-    return Interpolants.make_parent_element_2d(deg), Interpolants.make_parent_element_1d(deg)
+    pe = Interpolants.make_parent_element_2d_with_bubble(deg) if bubble else Interpolants.make_parent_element_2d(deg)
+    return pe, Interpolants.make_parent_element_1d(deg)
+
+
+def _element_kind(ex, deg):
+    """plain or bubble-enriched element (input of the harness, forked); the kinds coincide for degree 1"""
+    return choose(ex, 'elementKind_index', ['lagrange', 'bubble']) == 'bubble' if deg >= 2 else False
 
 
 class SymMesh:
     """what VTKWriter reads of a Mesh (coords, conns, simplexNodesOrdinals, parentElement), shape-symbolic"""
 
-    def __init__(self, deg, nNodes, nSimplex, nElements):
-        pe, _ = _parent_elements(deg)
+    def __init__(self, deg, nNodes, nSimplex, nElements, bubble=False):
+        pe, _ = _parent_elements(deg, bubble)
         npe = int(pe.coordinates.shape[0])
         vert = [int(v) for v in onp.asarray(pe.vertexNodes)]
         self.coords = ShapeArr((nNodes, 2), onp.float64)
@@ -825,12 +832,12 @@ class SymMesh:
         self.parentElement = pe
 
 
-def real_mesh(deg, nNodes, nSimplex, nElements, xp):
+def real_mesh(deg, nNodes, nSimplex, nElements, xp, bubble=False):
     """a real optimism Mesh namedtuple (jax or numpy arrays, the real parent element) with exactly these array sizes. The
     writer reads only sizes, coordinates and the vertex columns of conns, so the arrays need not be a conforming
     triangulation."""
     from optimism import Mesh
-    pe, pe1 = _parent_elements(deg)
+    pe, pe1 = _parent_elements(deg, bubble)
     npe = int(pe.coordinates.shape[0])
     vert = [int(v) for v in onp.asarray(pe.vertexNodes)]
     ii = onp.arange(nNodes)
@@ -886,6 +893,7 @@ def make_harness(degrees, sphere_counts, edge_patterns, field_sets, nwrites=2, s
             ex.assume(nNodes == nSimplex)
         else:
             ex.assume(nNodes >= nSimplex + 3 * (deg - 1))      # every one of the >= 3 edges carries deg-1 extra nodes
+        bubble = _element_kind(ex, deg)
         nsph = choose(ex, 'nSpheres', list(sphere_counts))
         edges = EDGE_PATTERNS[choose(ex, 'edgePattern', list(edge_patterns))]
         fset = choose(ex, 'fieldSet', list(field_sets))
@@ -904,7 +912,7 @@ def make_harness(degrees, sphere_counts, edge_patterns, field_sets, nwrites=2, s
             elif 'cell' not in rows:
                 rows[name] = _sint(ex, 'rows_' + name)
                 ex.assume(rows[name] >= 0)
-        cfg = dict(degree=deg, spheres=nsph, edges=edges, fieldSet=fset)
+        cfg = dict(degree=deg, element='bubble' if bubble else 'lagrange', spheres=nsph, edges=edges, fieldSet=fset)
         if not symbolic:
             for nm, v in (('nNodes', nNodes), ('nSimplexNodes', nSimplex), ('nElements', nElements)):
                 if v > 2_000_000:
@@ -924,14 +932,14 @@ def make_harness(degrees, sphere_counts, edge_patterns, field_sets, nwrites=2, s
                     files.append(RecFile(name, mode))
                     return files[-1]
                 mod.open = open_shim
-                mesh = SymMesh(deg, nNodes, nSimplex, nElements)
+                mesh = SymMesh(deg, nNodes, nSimplex, nElements, bubble)
                 base = 'c20_symbolic'
             else:
                 if backend == 'jax':
                     import jax.numpy as xp
                 else:
                     xp = onp
-                mesh = real_mesh(deg, nNodes, nSimplex, nElements, xp)
+                mesh = real_mesh(deg, nNodes, nSimplex, nElements, xp, bubble)
                 tmpdir = tempfile.mkdtemp(prefix='c20_replay_')
                 base = os.path.join(tmpdir, 'out')
 
@@ -1265,7 +1273,8 @@ def make_value_harness(deg, dims=(1, 2, 3), sphere_counts=(0, 2), edge_counts=(0
         d = choose(ex, 'fieldSpatialDim_index', list(dims))
         nsph = choose(ex, 'nSpheres_index', list(sphere_counts))
         nedge = choose(ex, 'nContactEdges_index', list(edge_counts))
-        pe, pe1 = _parent_elements(deg)
+        bubble = _element_kind(ex, deg) if deg >= 3 else False
+        pe, pe1 = _parent_elements(deg, bubble)
         npe = int(pe.coordinates.shape[0])
         V, T = 3, nElements
         nNodes = {1: 3, 2: 4}.get(deg, 5)            # degree >= 3: two mesh nodes are not output nodes
@@ -1278,7 +1287,7 @@ def make_value_harness(deg, dims=(1, 2, 3), sphere_counts=(0, 2), edge_counts=(0
                  iv=_draw(ex, 'iv', (nNodes, d), 'I'), ci=_draw(ex, 'ci', (T,), 'I'), cit=_draw(ex, 'cit', (T, d, d), 'I'))
         sph, rad = _draw(ex, 'sphere', (nsph, 2)), _draw(ex, 'radius', (nsph,))
         edge = _draw(ex, 'edge', (nedge, 2), 'I')
-        ex.note('degree %d, field spatial dimension %d, %d sphere(s), %d contact edge(s), %d mesh nodes (%d written), %d elements' % (deg, d, nsph, nedge, nNodes, len(out), T))
+        ex.note(('bubble-enriched ' if bubble else '') + 'degree %d, field spatial dimension %d, %d sphere(s), %d contact edge(s), %d mesh nodes (%d written), %d elements' % (deg, d, nsph, nedge, nNodes, len(out), T))
 
         def run(backend):
             mod = px.load_module(REL)
@@ -1427,6 +1436,164 @@ def _register_values():
 _register_values()
 
 
+# ------------------------------------------------------------------------------------------ caller-owned buffers (O6)
+def _field_rows(kind, A, recs, d):
+    if kind == 'SCALARS':
+        flat = A.reshape(-1)
+        return [[flat[r]] for r in recs]
+    if kind == 'VECTORS':
+        return [[A[r, j] if j < d else 0.0 for j in range(3)] for r in recs]
+    return [[A[r, i, j] if (i < d and j < d) else 0.0 for j in range(3)] for r in recs for i in range(3)]
+
+
+ALIAS_FIELDS = [
+    # (where, name, kind, sort of the entries, VTK data type, shape builder (n, d))
+    ('node', 'ns', 'SCALARS', 'R', 'DOUBLE', lambda n, d: (n,)),
+    ('node', 'ni', 'SCALARS', 'I', 'INT', lambda n, d: (n, 1)),
+    ('node', 'nv', 'VECTORS', 'I', 'LONG', lambda n, d: (n, d)),
+    ('node', 'nt', 'TENSORS', 'R', 'DOUBLE', lambda n, d: (n, d, d)),
+    ('cell', 'cs', 'SCALARS', 'R', 'DOUBLE', lambda n, d: (n,)),
+    ('cell', 'ci', 'SCALARS', 'I', 'INT', lambda n, d: (n, 1)),
+    ('cell', 'cv', 'VECTORS', 'R', 'DOUBLE', lambda n, d: (n, d)),
+    ('cell', 'ct', 'TENSORS', 'I', 'SHORT', lambda n, d: (n, d, d)),
+]
+
+
+def make_alias_harness(deg, d=2, nElements=2):
+    """NumPy-typed inputs owned by the caller: the caller overwrites its arrays IN PLACE after add_*_field (also: registers two
+    fields from one reused scratch buffer), writes, overwrites again, writes again. Entries symbolic (object arrays in the
+    symbolic run: np.asarray / reshape alias exactly as real numpy does, np.array copies)."""
+    def fn(ex):
+        del _TOKENS[:]
+        symbolic = ex.symbolic
+        pe, pe1 = _parent_elements(deg)
+        npe = int(pe.coordinates.shape[0])
+        V, T = 3, nElements
+        nNodes = {1: 3, 2: 4}.get(deg, 5)
+        out = list(range(nNodes)) if deg == 2 else list(range(V))
+        x = _draw(ex, 'x', (nNodes, 2))
+        conn = _draw(ex, 'conn', (T, npe), 'I')
+        specs = ALIAS_FIELDS + [('cell', 'scratch_a', 'SCALARS', 'R', 'DOUBLE', lambda n, d: (n,)), ('cell', 'scratch_b', 'SCALARS', 'R', 'DOUBLE', lambda n, d: (n,)),
+                                ('node', 'scratch_c', 'SCALARS', 'I', 'INT', lambda n, d: (n,)), ('node', 'scratch_d', 'SCALARS', 'I', 'INT', lambda n, d: (n,))]
+        orig, later1, later2 = {}, {}, {}
+        for where, name, kind, sort, dtn, shp in specs:
+            shape = shp(nNodes if where == 'node' else T, d)
+            orig[name] = _draw(ex, name, shape, sort)                  # the values at registration time
+            later1[name] = _draw(ex, name + '_after_add', shape, sort)     # what the caller stores in the same array afterwards
+            later2[name] = _draw(ex, name + '_after_write', shape, sort)   # ... and between the two writes
+
+        def run(backend):
+            mod = px.load_module(REL)
+            files, tmpdir = [], None
+            if backend == 'object':
+                mod.np = ValNP()
+
+                def open_shim(name, mode='r', *a, **k):
+                    files.append(RecFile(name, mode))
+                    return files[-1]
+                mod.open = open_shim
+                mesh = SymMesh.__new__(SymMesh)
+                mesh.coords, mesh.conns, mesh.simplexNodesOrdinals, mesh.parentElement = x, conn, onp.arange(V), pe
+                base = 'c20_buffers'
+            else:
+                from optimism import Mesh
+                mesh = Mesh.Mesh(coords=onp.array(x), conns=onp.array(conn), simplexNodesOrdinals=onp.arange(V), parentElement=pe, parentElement1d=pe1,
+                                 blocks=None, nodeSets=None, sideSets=None)
+                tmpdir = tempfile.mkdtemp(prefix='c20_replay_')
+                base = os.path.join(tmpdir, 'out')
+            texts = []
+            try:
+                with _pywarnings.catch_warnings():
+                    _pywarnings.simplefilter('ignore')
+                    FT, DT = mod.VTKFieldType, mod.VTKDataType
+                    W = mod.VTKWriter(mesh, baseFileName=base)
+                    bufs = {}
+                    for where, name, kind, sort, dtn, shp in ALIAS_FIELDS:
+                        buf = onp.array(orig[name])                  # the caller's own numpy array
+                        (W.add_nodal_field if where == 'node' else W.add_cell_field)(name, buf, getattr(FT, kind), getattr(DT, dtn))
+                        buf[...] = later1[name]                      # ... reused by the caller right after the registration
+                        bufs[name] = buf
+                    for where, (na, nb), dtn in (('cell', ('scratch_a', 'scratch_b'), 'DOUBLE'), ('node', ('scratch_c', 'scratch_d'), 'INT')):
+                        scratch = onp.array(orig[na])                # one scratch buffer, two fields
+                        add = W.add_nodal_field if where == 'node' else W.add_cell_field
+                        add(na, scratch, FT.SCALARS, getattr(DT, dtn))
+                        scratch[...] = orig[nb]
+                        add(nb, scratch, FT.SCALARS, getattr(DT, dtn))
+                        scratch[...] = later1[nb]
+                        bufs[nb] = scratch
+                    for k in range(2):
+                        W.write()
+                        if backend == 'object':
+                            texts.append(files[-1].text())
+                        else:
+                            with open(base + '.vtk') as fh:
+                                texts.append(fh.read())
+                        for name, buf in bufs.items():
+                            buf[...] = later2[name]
+            except CODE_ERRORS as e:
+                ex.goal(DEFINED, Holds(False), info='%s: %s (arrays: %s)' % (type(e).__name__, e, backend))
+                return
+            finally:
+                if tmpdir:
+                    shutil.rmtree(tmpdir, ignore_errors=True)
+            ex.goal(DEFINED, Holds(True))
+            parsed = [read_legacy_vtk(t)[1] for t in texts]
+            kws = [q['kw'] for q in parsed[0]]
+            okstruct = kws[:3] == ['POINTS', 'CELLS', 'CELL_TYPES'] and 'POINT_DATA' in kws and 'CELL_DATA' in kws and [q['kw'] for q in parsed[1]] == kws
+            ex.goal('sections_in_legacy_order', Holds(okstruct), info=kws)
+            if not okstruct:
+                return
+            secs = parsed[0]
+            parr, _ = _arrays(secs, kws.index('POINT_DATA'))
+            carr, _ = _arrays(secs, kws.index('CELL_DATA'))
+            arrays = {('node', a[1]): a for a in parr}
+            arrays.update({('cell', a[1]): a for a in carr})
+            for where, name, kind, sort, dtn, shp in specs:
+                a = arrays.get((where, name))
+                if a is None or a[0] != kind or a[3] is None:
+                    ex.goal('data_arrays_are_the_accepted_fields_in_order', Holds(False), info='array %s (%s) not found in the file' % (name, kind))
+                    continue
+                want = _field_rows(kind, orig[name], out if where == 'node' else list(range(T)), d)
+                gname = ('two_fields_from_one_scratch_buffer_keep_their_own_values' if name.startswith('scratch') else
+                         '%s_%s_field_holds_the_values_at_registration_time' % ('point' if where == 'node' else 'cell', kind.lower()[:-1]))
+                _placed(ex, gname, a[3].get('lines', []), want, '%s %s array %r (the caller overwrote its array after registration)' % (where, kind, name))
+            # both files, line by line
+            l1 = [r for q in parsed[0] for r in q.get('lines', [])]
+            l2 = [r for q in parsed[1] for r in q.get('lines', [])]
+            _placed(ex, 'file_unchanged_by_caller_mutation_between_writes', l2, l1, 'second file (after the caller overwrote its arrays again) vs first file')
+
+        for backend in (('object',) if symbolic else ('numpy',)):
+            run(backend)
+    return fn
+
+
+ALIAS_GOALS = ['sections_in_legacy_order', 'two_fields_from_one_scratch_buffer_keep_their_own_values', 'file_unchanged_by_caller_mutation_between_writes', DEFINED] + \
+              ['%s_%s_field_holds_the_values_at_registration_time' % (w, k) for w in ('point', 'cell') for k in ('scalar', 'vector', 'tensor')]
+
+
+def _register_alias():
+    for d in (1, 2, 3, 4):
+        def ob(h, d=d):
+            """the writer owns what it was given: NumPy arrays registered with add_nodal_field / add_cell_field (scalar 1-d and column,
+            vector, tensor; float and int) are overwritten in place by the caller after registration and again between two write()
+            calls, and two fields are registered from one reused scratch buffer: the file holds the values supplied at registration
+            time, and the second file equals the first"""
+            from ..core import REPO
+            src = open(os.path.join(REPO, REL)).read()
+            h.encoded('optimism.VTKWriter (real source on numpy object arrays of symbolic entries; file sha1=%s): add_nodal_field, add_cell_field, _check_and_format_data, write and all _write_* methods'
+                      % hashlib.sha1(src.encode()).hexdigest()[:12])
+            h.bounds('all real / integer values of the entries at registration time, after registration and between the writes; concrete shapes: degree %d, 2 elements, field dimension 2; '
+                     'inputs are NumPy arrays (jax arrays are immutable and cannot alias)' % d)
+            h.assume_note('np.asarray / np.array / reshape / fancy indexing are numpy\'s own on object arrays (identity, copy, view, copy) — ground facts in O0 compare the shim with real numpy; '
+                          'np.zeros allocates object arrays (ValNP); open() is a recorder')
+            h.outside('mutation of the mesh arrays; number formatting')
+            px.run_px(h, 'buffers', make_alias_harness(d), cap=20, order=('core',), feas_ms=300, expect_goals=ALIAS_GOALS)
+        obligation(P, 'O6.caller_buffers_are_copied[degree %d]' % d, tiers=('quick', 'thorough'), cap=300)(ob)
+
+
+_register_alias()
+
+
 # ------------------------------------------------------------------------------------------ meshes from the real order elevation (O5)
 SIMPLEX_FAMILY = ('structured_2x2', 'structured_3x3', 'structured_3x3_isolated_node_at_2', 'structured_3x2_isolated_node_last')
 _ELEVATED = {}
@@ -1448,13 +1615,13 @@ def simplex_mesh(kind):
     return Mesh.construct_mesh_from_basic_data(jnp.array(coords), jnp.array(conns), {'block_0': jnp.arange(conns.shape[0])})
 
 
-def elevated_mesh(kind, order):
+def elevated_mesh(kind, order, bubble=False):
     """the REAL Mesh.create_higher_order_mesh_from_simplex_mesh on a member of the family (cached per process: the ids are
     concrete and the same in the symbolic run and in a replay)"""
-    if (kind, order) not in _ELEVATED:
+    if (kind, order, bubble) not in _ELEVATED:
         from optimism import Mesh
-        _ELEVATED[(kind, order)] = Mesh.create_higher_order_mesh_from_simplex_mesh(simplex_mesh(kind), order)
-    return _ELEVATED[(kind, order)]
+        _ELEVATED[(kind, order, bubble)] = Mesh.create_higher_order_mesh_from_simplex_mesh(simplex_mesh(kind), order, useBubbleElement=bubble)
+    return _ELEVATED[(kind, order, bubble)]
 
 
 def make_elevated_harness(order, family=SIMPLEX_FAMILY):
@@ -1464,7 +1631,8 @@ def make_elevated_harness(order, family=SIMPLEX_FAMILY):
         del _TOKENS[:]
         symbolic = ex.symbolic
         kind = choose(ex, 'simplexMesh_index', list(family))
-        M = elevated_mesh(kind, order)
+        bubble = choose(ex, 'useBubbleElement_index', [False, True])
+        M = elevated_mesh(kind, order, bubble)
         conn = onp.asarray(M.conns).astype(onp.int64)
         ordinals = onp.asarray(M.simplexNodesOrdinals).astype(onp.int64)
         nNodes, T = int(M.coords.shape[0]), int(conn.shape[0])
@@ -1473,7 +1641,7 @@ def make_elevated_harness(order, family=SIMPLEX_FAMILY):
         elc = _quadratic_triangle_order(pe) if deg == 2 else [int(v) for v in onp.asarray(pe.vertexNodes)]
         x = _draw(ex, 'x', (nNodes, 2))
         sfield = _draw(ex, 's', (nNodes,))
-        ex.note('simplex mesh %s elevated to order %d by the real Mesh.create_higher_order_mesh_from_simplex_mesh: %d nodes, %d elements, %d simplexNodesOrdinals' % (kind, order, nNodes, T, ordinals.size))
+        ex.note('simplex mesh %s elevated to order %d (useBubbleElement=%s) by the real Mesh.create_higher_order_mesh_from_simplex_mesh: %d nodes, %d elements, %d simplexNodesOrdinals' % (kind, order, bubble, nNodes, T, ordinals.size))
         # ---- the link the writer relies on (it writes coords[simplexNodesOrdinals] but does not renumber connectivity)
         used = sorted({int(conn[e, j]) for e in range(T) for j in elc})
         if deg != 2:
@@ -1573,7 +1741,7 @@ def _register_elevated():
             src = open(os.path.join(REPO, REL)).read()
             h.encoded('optimism.VTKWriter (real source on object arrays of symbolic entries; file sha1=%s)' % hashlib.sha1(src.encode()).hexdigest()[:12],
                       Mesh.create_higher_order_mesh_from_simplex_mesh, Mesh.create_edges, Mesh.construct_structured_mesh, Mesh.construct_mesh_from_basic_data)
-            h.bounds('simplex meshes %s elevated to order %d by the real code (ids, element count and node count concrete); all real values of every node coordinate and of a nodal scalar field' % (list(SIMPLEX_FAMILY), order))
+            h.bounds('simplex meshes %s elevated to order %d, plain and with useBubbleElement=True, by the real code (ids, element count and node count concrete); all real values of every node coordinate and of a nodal scalar field' % (list(SIMPLEX_FAMILY), order))
             h.assume_note('the elevation runs concretely (jax) on the concrete simplex mesh; its conns / simplexNodesOrdinals / parentElement are handed to the writer together with SYMBOLIC '
                           'coordinates and field values (the writer reads coordinates only to copy them); stubs as in O3 (open recorder, np.zeros allocates object arrays)')
             h.outside('simplex meshes outside the family (the identity-on-used-ids link is a ground fact per mesh); coordinates produced by the elevation (C13)')
@@ -1594,11 +1762,22 @@ def o0(h):
     h.bounds('12 configurations per degree 1..4 (spheres 0..2, every contact-edge pattern and field set of O1), nSimplexNodes=5, nElements=3')
     if h.replay is not None:
         return
+    # aliasing semantics of the `np` stand-ins against real numpy (O6 relies on them)
+    probes = []
+    for mk in (lambda: onp.arange(6.0), lambda: onp.arange(6).reshape(3, 2), lambda: onp.array([SVal(z3.Real('p%d' % i)) for i in range(4)] + [None], dtype=object)[:4]):
+        for npx in (onp, ValNP()):
+            a = mk()
+            probes.append((npx.asarray(a) is a, npx.array(a) is not a, bool(onp.shares_memory(a.reshape((-1, 1)), a)), bool(onp.shares_memory(npx.asarray(a).reshape((-1, 1)), a)),
+                           not onp.shares_memory(npx.array(a), a), not onp.shares_memory(a[onp.arange(2)], a)))
+    sa = ShapeArr((3, 2), float)
+    shim = ShapeNP()
+    h.fact('np_stand_ins_alias_like_numpy', all(all(p) for p in probes) and shim.asarray(sa) is sa and shim.array(sa) is not sa,
+           detail='asarray(x) is x, array(x) is a copy, reshape of an ndarray is a view, fancy indexing copies: %s' % probes)
     for d in (1, 2, 3, 4):
         bad, n = [], 0
         for i in range(12):
             vals = dict(degree_index=0, nSimplexNodes=5, nElements=3, nNodes=5 if d == 1 else 5 + 3 * (d - 1) + 2, nSpheres=i % 3, edgePattern=i % 4,
-                        fieldSet=(i // 3) % 4, fieldSpatialDim=1 + i % 3, rows_cell=3 if i % 5 else 4)
+                        fieldSet=(i // 3) % 4, fieldSpatialDim=1 + i % 3, rows_cell=3 if i % 5 else 4, elementKind_index=(i // 2) % 2)
             vals.update({'rows_' + f[1]: vals['nNodes'] + (i % 2) for fs in QUICK['fsets'] for f in FIELD_SETS[fs] if f[0] == 'node'})
             out = {}
             ex = px.Explorer(concrete=vals)
